@@ -310,6 +310,8 @@ pub fn make_app(cfg: &PeerCfg) -> App {
     app.add_systems(Update, app_despawn_system);
     app.add_systems(Last, count_sync_finished);
     app.register_type::<CompU>();
+    // RenderPlugin's share of what a light value needs to be decoded (any app that renders has it)
+    app.register_type::<Color>();
     for t in &cfg.registered {
         match t {
             Ty::A => {
